@@ -89,40 +89,172 @@ Fixpoint yaml_rt_ideal (y : ynode) : ynode :=
   | YSequence l => YSequence (map yaml_rt_ideal l)
   end.
 
-(* ------------------------------------------------------------------ properties inside a calibration file.
-   vnacal_save adds the pair "properties" -> _vnaproperty_yaml_export(root) to the top-level mapping
-   (global properties, always present: a NULL root is written as ~) and to every calibration's
-   mapping; the other pairs of those mappings (version, calibrations, name, type, data ...) are
-   abstract here.  vnacal_load: parse_document imports the value of every scalar key equal to
-   "properties" into vc_properties, in order; parse_calibration remembers the value of the last
-   such key and imports it into the new calibration's cal_properties. *)
+(* ------------------------------------------------------------------ a calibration file.
+   vnacal_save writes the line "#VNACal 1.0" and one YAML document: the top-level mapping
+     properties: _vnaproperty_yaml_export(vc_properties)      (always present: a NULL root is written as ~)
+     calibrations: [ one mapping per calibration ]
+   and per calibration the mapping  name, type, rows, columns, frequencies, z0,
+     properties: _vnaproperty_yaml_export(cal_properties), data.
+   The entries other than "name" and "properties" are abstract here ([c_pre], [c_post]: any
+   keys different from those two, any values).
+
+   vnacal_load (parse_document / parse_calibrations / parse_set of src/vnacal_load.c):
+   - the first line must give a supported version, else the load fails;
+   - parse_document: the root must be a mapping; pairs are taken in order, non-scalar keys are
+     skipped; the value of every key "properties" is imported INTO vc_properties (so repeated
+     keys merge), the value of every key "calibrations" (and "sets" when the major version is 0)
+     goes to parse_calibrations; any other key is ignored;
+   - parse_calibrations: must be a sequence; parse_set for every item in order;
+   - parse_set: must be a mapping; the scalar fields are parsed and checked, the calibration is
+     allocated ([pre_ok]); the value of the LAST key "properties" is imported into the new
+     calibration's empty cal_properties; then parse_data ([post_ok]) and
+     _vnacal_add_calibration_common, which stores the calibration under its name (the value of the
+     last key "name"; none, or a non-scalar one, is an error) and REPLACES, in place, an earlier
+     calibration of the same name.  pre_ok / post_ok stand for everything that is not the
+     properties import or the name; they may depend on the calibrations held so far and on the
+     whole mapping;
+   - as soon as any step fails the function returns -1 up to vnacal_load, which frees the whole
+     vnacal_t and returns NULL: nothing of a partially read file is ever returned. *)
 Definition key_properties : bytes := [112; 114; 111; 112; 101; 114; 116; 105; 101; 115].
+Definition key_calibrations : bytes := [99; 97; 108; 105; 98; 114; 97; 116; 105; 111; 110; 115].
+Definition key_sets : bytes := [115; 101; 116; 115].
+Definition key_name : bytes := [110; 97; 109; 101].
+
+(* the first line of the file as vnacal_load classifies it: no "#VNACal M.m" / "#VNACAL 2.x|3.x"
+   line or major > 1; major 0 (old "#VNACAL 2.x"); major 1 ("#VNACal 1.x", old "#VNACAL 3.x") *)
+Inductive vline := VBad | VMajor0 | VMajor1.
 
 Definition save_mapping (pre post : list (bytes * ynode)) (props : node) : ynode :=
   let mk := fun p : bytes * ynode => (YScalar (fst p) YAny, snd p) in
   YMapping (map mk pre ++ (YScalar key_properties YAny, yaml_export props) :: map mk post).
 
-Definition is_properties_key (k : ynode) : bool :=
-  match k with YScalar kb _ => bytes_eqb kb key_properties | _ => false end.
+Record calrec := mkCal { c_name : bytes; c_pre : list (bytes * ynode); c_props : node; c_post : list (bytes * ynode) }.
 
-Definition load_global_properties (y : ynode) (root : node) : node * bool :=
-  match y with
-  | YMapping kv =>
-    fold_left (fun (st : node * bool) p =>
-                 let '(r, ok) := st in
-                 if negb ok then st
-                 else if is_properties_key (fst p) then yaml_import (snd p) r else st)
-              kv (root, true)
-  | _ => (root, false)
+Definition save_cal (c : calrec) : ynode :=
+  save_mapping ((key_name, YScalar (c_name c) YAny) :: c_pre c) (c_post c) (c_props c).
+
+(* the document vnacal_save hands to yaml_emitter_dump (its first line is VMajor1) *)
+Definition save_file (g : node) (cals : list calrec) : ynode :=
+  YMapping [(YScalar key_properties YAny, yaml_export g);
+            (YScalar key_calibrations YAny, YSequence (map save_cal cals))].
+
+Definition is_key (kb : bytes) (k : ynode) : bool :=
+  match k with YScalar b _ => bytes_eqb b kb | _ => false end.
+Definition is_properties_key (k : ynode) : bool := is_key key_properties k.
+
+Definition last_properties (kv : list (ynode * ynode)) : option ynode :=
+  fold_left (fun (found : option ynode) p => if is_properties_key (fst p) then Some (snd p) else found) kv None.
+
+(* the name of the calibration: value of the last key "name"; None = a non-scalar value (error
+   as soon as it is met) or no such key (missing required field) *)
+Fixpoint cal_name_from (kv : list (ynode * ynode)) (cur : option bytes) : option bytes :=
+  match kv with
+  | [] => cur
+  | p :: r =>
+    if is_key key_name (fst p) then
+      match snd p with
+      | YScalar v _ => cal_name_from r (Some v)
+      | _ => None
+      end
+    else cal_name_from r cur
+  end.
+Definition cal_name (kv : list (ynode * ynode)) : option bytes := cal_name_from kv None.
+
+(* the calibration vector while a file is read: name -> (document node, cal_properties), in slot
+   order.  _vnacal_add_calibration_common: same name = replace in place, else append (no slot is
+   ever freed during a load). *)
+Definition cal_vector := list (bytes * (ynode * node)).
+Definition add_cal (nm : bytes) (e : ynode * node) (cals : cal_vector) : cal_vector :=
+  match lookup nm cals with
+  | Some _ => update nm e cals
+  | None => cals ++ [(nm, e)]
   end.
 
-Definition load_calibration_properties (y : ynode) : node * bool :=
+(* everything of parse_set that is not the properties import or the name, as a function of the
+   document nodes of the calibrations held so far and of the pairs of this calibration's mapping *)
+Definition others := list ynode -> list (ynode * ynode) -> bool.
+
+(* vc_properties and the calibration vector *)
+Definition load_state := (node * cal_vector)%type.
+Definition held (cals : cal_vector) : list ynode := map (fun e => fst (snd e)) cals.
+
+Definition parse_set (pre_ok post_ok : others) (st : load_state) (y : ynode) : option load_state :=
+  let '(g, cals) := st in
   match y with
   | YMapping kv =>
-    match fold_left (fun (found : option ynode) p => if is_properties_key (fst p) then Some (snd p) else found)
-                    kv None with
-    | Some v => yaml_import v NNull
-    | None => (NNull, true)
+    match cal_name kv with
+    | None => None
+    | Some nm =>
+      if negb (pre_ok (held cals) kv) then None
+      else
+        let '(r, ok) := match last_properties kv with
+                        | Some v => yaml_import v NNull
+                        | None => (NNull, true)
+                        end in
+        if negb ok then None
+        else if negb (post_ok (held cals) kv) then None
+        else Some (g, add_cal nm (y, r) cals)
     end
-  | _ => (NNull, false)
+  | _ => None
+  end.
+
+Definition parse_calibrations (pre_ok post_ok : others) (st : load_state) (y : ynode) : option load_state :=
+  match y with
+  | YSequence l =>
+    fold_left (fun (acc : option load_state) c =>
+                 match acc with None => None | Some st' => parse_set pre_ok post_ok st' c end)
+              l (Some st)
+  | _ => None
+  end.
+
+Definition is_major0 (v : vline) : bool := match v with VMajor0 => true | _ => false end.
+
+Definition parse_document (v : vline) (pre_ok post_ok : others) (y : ynode) : option load_state :=
+  match y with
+  | YMapping kv =>
+    fold_left
+      (fun (acc : option load_state) p =>
+         match acc with
+         | None => None
+         | Some (g, cals) =>
+           match fst p with
+           | YScalar kb _ =>
+             let st1 :=
+                 if bytes_eqb kb key_properties then
+                   let '(g', ok) := yaml_import (snd p) g in
+                   if ok then Some (g', cals) else None
+                 else Some (g, cals) in
+             match st1 with
+             | None => None
+             | Some s1 =>
+               if bytes_eqb kb key_calibrations || (is_major0 v && bytes_eqb kb key_sets)
+               then parse_calibrations pre_ok post_ok s1 (snd p)
+               else Some s1
+             end
+           | _ => acc                                        (* non-scalar key: skipped *)
+           end
+         end)
+      kv (Some (NNull, []))
+  | _ => None
+  end.
+
+(* vnacal_load: None = NULL returned (everything freed); Some (vc_properties, cal_properties of
+   every calibration in slot order).  [v] = classification of the first line, [y] = the document
+   returned by yaml_parser_load. *)
+Definition load_file (v : vline) (pre_ok post_ok : others) (y : ynode) : option (node * list node) :=
+  match v with
+  | VBad => None
+  | _ => match parse_document v pre_ok post_ok y with
+         | Some (g, cals) => Some (g, map (fun e => snd (snd e)) cals)
+         | None => None
+         end
+  end.
+
+(* do all non-property steps succeed for the calibration nodes [ys], after [done]? *)
+Fixpoint others_all_ok (pre_ok post_ok : others) (done ys : list ynode) : bool :=
+  match ys with
+  | [] => true
+  | y :: r =>
+    match y with YMapping kv => pre_ok done kv && post_ok done kv | _ => false end
+    && others_all_ok pre_ok post_ok (done ++ [y]) r
   end.
